@@ -64,6 +64,7 @@ theorem mapRefs_id (v : Val) : v.mapRefs (fun x => x) = v := by
   | aggr e ih => simp only [Val.mapRefs, ih]
   | nil => rfl
   | cons h t ih1 ih2 => simp only [Val.mapRefs, ih1, ih2]
+  | via p v ih => simp only [Val.mapRefs, ih]
 
 theorem map_mapRefs_id (vs : List Val) : vs.map (Val.mapRefs (fun x => x)) = vs := by
   induction vs with
@@ -78,39 +79,77 @@ theorem shift_zero (i : Inst) : i.shift 0 = i := by
   | nil => rfl
   | cons p ps ih => simp only [List.map_cons, ih]
 
-/-- all references of `v`, moved by `k`, are ids in `ns` ⇒ reading resolves every one of them to the moved id -/
-theorem resolveVal_closed (ns : List Node) (k : Int) (v : Val) (h : ∀ r ∈ v.refs, r + k ∈ ids ns) :
-    resolveVal ns k v = (v.mapRefs (· + k), true) := by
-  induction v with
+/-- every call site hands the increment on (re-checked against the source on every run) -/
+def allOn : Threading := ⟨true, true, true, true, true, true, true, true, true, true, true⟩
+theorem threading_all : threading = allOn := rfl
+
+theorem on_instAttr : allOn.instAttr = true := rfl
+theorem on_attrRef : allOn.attrRef = true := rfl
+theorem on_attrAggr : allOn.attrAggr = true := rfl
+theorem on_attrSelect : allOn.attrSelect = true := rfl
+theorem on_redef : allOn.redef = true := rfl
+theorem on_aggrEntityElem : allOn.aggrEntityElem = true := rfl
+theorem on_aggrSelectElem : allOn.aggrSelectElem = true := rfl
+theorem on_selectContent : allOn.selectContent = true := rfl
+theorem on_selectRef : allOn.selectRef = true := rfl
+theorem on_complexPart : allOn.complexPart = true := rfl
+theorem on_refAdd : allOn.refAdd = true := rfl
+
+theorem thr_true (k : Int) : thr true k = k := rfl
+
+/-- with every site on: all references of `v`, moved by `k`, are ids in `ns` ⇒ reading resolves every one of them to the
+    moved id, wherever the value stands -/
+theorem resolveValT_closed (ns : List Node) (k : Int) (v : Val) (h : ∀ r ∈ v.refs, r + k ∈ ids ns) (c : Ctx) :
+    resolveValT allOn ns c k v = (v.mapRefs (· + k), true) := by
+  induction v generalizing c with
   | null => rfl | derived => rfl | tok _ => rfl
   | ref r =>
     have : (find ns (r + k)).isSome = true := find_isSome.mpr (h r (by simp [Val.refs]))
-    simp [resolveVal, this, Val.mapRefs]
-  | typed n v ih => simp only [resolveVal, Val.mapRefs]; rw [ih (by simpa [Val.refs] using h)]
-  | aggr e ih => simp only [resolveVal, Val.mapRefs]; rw [ih (by simpa [Val.refs] using h)]
+    cases c <;> simp [resolveValT, on_instAttr, on_attrRef, on_attrAggr, on_attrSelect, on_redef, on_aggrEntityElem, on_aggrSelectElem, on_selectContent, on_selectRef, on_complexPart, on_refAdd, thr_true, this, Val.mapRefs]
+  | typed n v ih =>
+    simp only [resolveValT, Val.mapRefs, on_instAttr, on_attrRef, on_attrAggr, on_attrSelect, on_redef, on_aggrEntityElem, on_aggrSelectElem, on_selectContent, on_selectRef, on_complexPart, on_refAdd, thr_true]
+    rw [ih (by simpa [Val.refs] using h)]
+  | aggr e ih =>
+    have := ih (by simpa [Val.refs] using h) .inAggr
+    cases c <;> (simp only [resolveValT, Val.mapRefs, on_instAttr, on_attrRef, on_attrAggr, on_attrSelect, on_redef, on_aggrEntityElem, on_aggrSelectElem, on_selectContent, on_selectRef, on_complexPart, on_refAdd, thr_true]; rw [this])
   | nil => rfl
   | cons a b iha ihb =>
-    simp only [resolveVal, Val.mapRefs]
+    simp only [resolveValT, Val.mapRefs]
     rw [iha (fun r hr => h r (by simp [Val.refs, hr])), ihb (fun r hr => h r (by simp [Val.refs, hr]))]
     rfl
+  | via p v ih =>
+    cases p with
+    | select =>
+      have := ih (by simpa [Val.refs] using h) .inSelect
+      cases c <;> (simp only [resolveValT, Val.mapRefs, on_instAttr, on_attrRef, on_attrAggr, on_attrSelect, on_redef, on_aggrEntityElem, on_aggrSelectElem, on_selectContent, on_selectRef, on_complexPart, on_refAdd, thr_true]; rw [this])
+    | redecl =>
+      simp only [resolveValT, Val.mapRefs, on_instAttr, on_attrRef, on_attrAggr, on_attrSelect, on_redef, on_aggrEntityElem, on_aggrSelectElem, on_selectContent, on_selectRef, on_complexPart, on_refAdd, thr_true]
+      rw [ih (by simpa [Val.refs] using h)]
 
-theorem resolveVals_closed (ns : List Node) (k : Int) (vs : List Val) (h : ∀ r ∈ vs.flatMap Val.refs, r + k ∈ ids ns) :
-    resolveVals ns k vs = (vs.map (Val.mapRefs (· + k)), true) := by
+theorem resolveVal_closed (ns : List Node) (k : Int) (v : Val) (h : ∀ r ∈ v.refs, r + k ∈ ids ns) (c : Ctx) :
+    resolveVal ns c k v = (v.mapRefs (· + k), true) := by
+  unfold resolveVal; rw [threading_all]; exact resolveValT_closed ns k v h c
+
+theorem resolveValsT_closed (ns : List Node) (k : Int) (vs : List Val) (h : ∀ r ∈ vs.flatMap Val.refs, r + k ∈ ids ns) :
+    resolveValsT allOn ns k vs = (vs.map (Val.mapRefs (· + k)), true) := by
   induction vs with
   | nil => rfl
   | cons v vs ih =>
-    simp only [resolveVals, List.map_cons]
-    rw [resolveVal_closed ns k v (fun r hr => h r (by simp [hr])), ih (fun r hr => h r (by simp [hr]))]
+    simp only [resolveValsT, List.map_cons]
+    have h1 : thr allOn.instAttr k = k := rfl
+    rw [h1, resolveValT_closed ns k v (fun r hr => h r (by simp [hr])), ih (fun r hr => h r (by simp [hr]))]
     rfl
 
-theorem resolveParts_closed (ns : List Node) (k : Int) (ps : List Part)
+theorem resolveParts_closed (ns : List Node) (cx : Bool) (k : Int) (ps : List Part)
     (h : ∀ r ∈ ps.flatMap (fun p => p.vals.flatMap Val.refs), r + k ∈ ids ns) :
-    resolveParts ns k ps = (ps.map (fun p => { p with vals := p.vals.map (Val.mapRefs (· + k)) }), true) := by
+    resolveParts ns cx k ps = (ps.map (fun p => { p with vals := p.vals.map (Val.mapRefs (· + k)) }), true) := by
+  unfold resolveParts; rw [threading_all]
   induction ps with
   | nil => rfl
   | cons p ps ih =>
-    simp only [resolveParts, List.map_cons]
-    rw [resolveVals_closed ns k p.vals (fun r hr => h r (by simp [hr])), ih (fun r hr => h r (by simp [hr]))]
+    simp only [resolvePartsT, List.map_cons]
+    have h1 : (if cx = true then thr allOn.complexPart k else k) = k := by cases cx <;> rfl
+    rw [h1, resolveValsT_closed ns k p.vals (fun r hr => h r (by simp [hr])), ih (fun r hr => h r (by simp [hr]))]
     rfl
 
 
@@ -196,10 +235,11 @@ theorem pass2_maxId (ft fill asev k) : ∀ (es : List Entry) (s : Sess), (pass2 
 
 theorem shift_eq (k : Int) (i : Inst) :
     i.shift k = { id := incrementFileId k i.id,
-                  parts := i.parts.map (fun p => { p with vals := p.vals.map (Val.mapRefs (· + k)) }) } := rfl
+                  parts := i.parts.map (fun p => { p with vals := p.vals.map (Val.mapRefs (· + k)) }),
+                  comment := i.comment } := rfl
 
 theorem pass2_spec (ft : FileType) (fill : Inst → Inst) (asev : Inst → Sev) (k : Int) (m : Int)
-    (hfill : ∀ i, (fill i).id = i.id) (hkeep : workingReadKeepsState = true) :
+    (hfill : ∀ i, (fill i).id = i.id) (hkeep : workingReadKeepsState = true) (hcm : keepComment ft = true) :
     ∀ (es : List Entry) (A : List Node),
     (ids A ++ fids k (kept ft es)).Nodup →
     (∀ e ∈ kept ft es, ∀ r ∈ e.inst.refs, r + k ∈ ids A ++ fids k (kept ft es)) →
@@ -232,7 +272,7 @@ theorem pass2_spec (ft : FileType) (fill : Inst → Inst) (asev : Inst → Sev) 
         rw [this]; exact hF.1
       have hids : ids (A ++ stubNode ft k e :: (kept ft es).map (stubNode ft k)) = ids A ++ fids k (e :: kept ft es) := by
         simp [ids, fids, stubNode, stub_id, Function.comp_def]
-      have hres : resolveParts (A ++ stubNode ft k e :: (kept ft es).map (stubNode ft k)) k e.inst.parts =
+      have hres : resolveParts (A ++ stubNode ft k e :: (kept ft es).map (stubNode ft k)) (decide (1 < e.inst.parts.length)) k e.inst.parts =
           (e.inst.parts.map (fun p => { p with vals := p.vals.map (Val.mapRefs (· + k)) }), true) := by
         apply resolveParts_closed
         intro r hr
@@ -252,6 +292,7 @@ theorem pass2_spec (ft : FileType) (fill : Inst → Inst) (asev : Inst → Sev) 
           (n' := n') (by rw [hidn]; exact hA_fresh) (by rw [hidn]; exact hB_fresh)
         rw [hidn] at hupd
         rw [hupd]
+        rw [hcm]
         cases ft <;> simp [filledNode, finalState, shift_eq, hkeep, stubNode, List.append_assoc, Sev.greater_null_left]
       rw [hstep]
       have hidf : ids (A ++ [filledNode ft fill asev k e]) = ids A ++ [incrementFileId k e.inst.id] := by
